@@ -1,5 +1,8 @@
 import Model.Base.Proto
 import Model.Stats.Descr
+import Model.Stats.TTest
+import Model.Stats.Beta
+import Model.Stats.Dists
 import Model.Spec.StatsSpec
 
 /-!
@@ -17,7 +20,7 @@ open Proto Stats Spec.Stats
 
 /-! tolerances, in ulps of the stated scale -/
 def kMean : Nat := 64        -- ulp(max|x|)
-def kVar : Nat := 256        -- ulp(max|x|)·D + ulp(D²), D = max|x − x̄|
+def kVar : Nat := 128        -- ulp(max|x|)·D + ulp(D²), D = max|x − x̄|
 def kPct : Nat := 4          -- ulp(max|x|)
 def kPos : Nat := 4          -- ulp(N+1) · (gap between neighbouring order statistics)
 def kGeo : Nat := 64         -- relative 2^-52 · max(1, max|ln x|)
@@ -126,10 +129,347 @@ def descr (l : Line) : IO Unit := do
   let tiqr := judge giqr (quantileR8 srt (mkRat 3 4) - quantileR8 srt (mkRat 1 4)) iqrTol
   IO.println s!"spec {id} mean={tmean} var={tvar} sd={tsd} geo={tgeo} bounds={tbounds} pct={tpct} pmono={tmono} pbound={tbound} iqr={tiqr}"
 
+/-! ### t-tests -/
+
+open Stats.TTest in
+def errName : TErr → String
+  | .sampleSize => "size" | .zeroVariance => "zerovar" | .mismatched => "mismatch"
+
+/-- relative tolerance of the formula layer: the model is evaluated exactly (sqrt to 1e-18) on
+Go's own float64 (n, mean, variance); Go rounds each of ≤ 12 operations -/
+def tolFormula : Rat := 32 * pow2 (-53)
+
+structure GoRes where
+  n1 : Int
+  n2 : Int
+  t : F64.Bits
+  dof : F64.Bits
+  p : F64.Bits
+  fa : F64.Bits
+  ft : F64.Bits
+
+def parseRes (s : String) : Except String GoRes :=
+  if s.startsWith "err:" then .error ((s.drop 4).toString) else
+  match s.splitOn ":" with
+  | [a, b, t, d, p, fa, ft] =>
+    .ok ⟨a.toInt?.getD 0, b.toInt?.getD 0, bitsD t, bitsD d, bitsD p, bitsD fa, bitsD ft⟩
+  | _ => .error "unparsable"
+
+def relClose (go : F64.Bits) (ref tol : Rat) : Bool :=
+  F64.isFinite go && rabs (toRat go - ref) ≤ tol * rabs ref + pow2 (-1074)
+
+open Stats.TTest in
+def altOf (s : String) : Alt := if s == "-1" then .less else if s == "1" then .greater else .differs
+
+open Stats.TTest in
+/-- K entry of one test: error kinds exact, N1/N2 exact, T and DoF within `tolFormula` of the
+exact model value, P bit-exact through the float64 instance of `pvalue` on Go's own CDF values -/
+def kEntry (go : String) (model : Except TErr (TStat Rat)) (n1 n2 : Int) (alt : Alt) : String :=
+  if go == "-" then "-" else
+  if go == "degen" then (match model with | .ok m => if m.dof ≤ 0 then "degen" else "bad(go=degen)" | .error e => s!"bad(go=degen,model={errName e})") else
+  match parseRes go, model with
+  | .error k, .error e => if k == errName e then k else s!"bad(go={k},model={errName e})"
+  | .error k, .ok _ => s!"bad(go={k},model=ok)"
+  | .ok _, .error e => s!"bad(go=ok,model={errName e})"
+  | .ok g, .ok m =>
+    if m.dof ≤ 0 then "degen" else
+    let cdf := table [(F64.abs g.t, g.fa), (g.t, g.ft)]
+    let pm : Fl := pvalue cdf ⟨g.t⟩ alt
+    if !relClose g.t m.t tolFormula then s!"bad(T={showB g.t},model~{showRat m.t})"
+    else if !relClose g.dof m.dof tolFormula then s!"bad(DoF={showB g.dof},model~{showRat m.dof})"
+    else if F64.canonNaN pm.bits != F64.canonNaN g.p then s!"bad(P={showB g.p},model={showFl pm})"
+    else if g.n1 != n1 ∨ g.n2 != n2 then s!"bad(N={g.n1}:{g.n2},model={n1}:{n2})"
+    else s!"ok:{n1}:{n2}"
+
+structure Moments where
+  n : Nat
+  mean : Rat
+  var : Rat
+  dm : Rat   -- accuracy granted to Go's float64 mean  (kMean ulps of the scale)
+  dv : Rat   -- accuracy granted to Go's float64 variance
+  allEq : Bool
+
+def moments (xq : List Rat) : Moments :=
+  let n := xq.length
+  if n == 0 then ⟨0, 0, 0, 0, 0, true⟩ else
+  let m := Spec.Stats.mean xq
+  let v := if n ≤ 1 then 0 else Spec.Stats.variance xq
+  let u := ulp (maxAbs xq)
+  let D := maxAbs (xq.map (· - m))
+  ⟨n, m, v, kMean * u, kVar * (u * D + ulp (D * D)), xq.all (· == xq.headD 0)⟩
+
+/-- judge Go's (T, DoF) against the textbook values with first-order propagated tolerances -/
+def sJudge (go : String) (spec : Except String (Rat × Rat × Rat × Rat)) : String :=
+  if go == "-" then "ok" else
+  if go == "degen" then "bad(go=degen)" else
+  match parseRes go, spec with
+  | .error k, .error e =>
+    -- "zerovar~": the exact variance is below the accuracy of a float64 variance; both answers pass
+    if k == e ∨ (e == "zerovar~" ∧ k == "zerovar") then "ok" else s!"bad(go={k},spec={e})"
+  | .ok _, .error "zerovar~" => "ok"
+  | .error k, .ok _ => s!"bad(go={k},spec=ok)"
+  | .ok _, .error e => s!"bad(go=ok,spec={e})"
+  | .ok g, .ok (t, dt, dof, ddof) =>
+    if !(F64.isFinite g.t && rabs (toRat g.t - t) ≤ dt) then s!"bad(T={showB g.t},spec~{showRat t})"
+    else if !(F64.isFinite g.dof && rabs (toRat g.dof - dof) ≤ ddof) then s!"bad(DoF={showB g.dof},spec~{showRat dof})"
+    else "ok"
+
+def eps : Rat := 64 * pow2 (-53)
+
+/-- Welch: t = (x̄₁−x̄₂)/√(s₁²/n₁+s₂²/n₂), ν = (s₁²/n₁+s₂²/n₂)² / (s₁⁴/(n₁²(n₁−1)) + s₂⁴/(n₂²(n₂−1))) -/
+def specWelch (a b : Moments) : Except String (Rat × Rat × Rat × Rat) :=
+  if a.n ≤ 1 ∨ b.n ≤ 1 then .error "size"
+  else if a.allEq ∧ b.allEq then .error "zerovar"
+  else if a.var ≤ a.dv ∧ b.var ≤ b.dv then .error "zerovar~"
+  else
+    let n1 : Rat := a.n; let n2 : Rat := b.n
+    let se2 := a.var / n1 + b.var / n2
+    let se := sqrtRat se2
+    let t := (a.mean - b.mean) / se
+    let dse2 := a.dv / n1 + b.dv / n2
+    let dt := 2 * ((a.dm + b.dm) / se + rabs t * (dse2 / se2)) + rabs t * eps
+    let dof := se2 ^ 2 / (a.var ^ 2 / (n1 ^ 2 * (n1 - 1)) + b.var ^ 2 / (n2 ^ 2 * (n2 - 1)))
+    let ra := if a.var == 0 then 0 else a.dv / a.var
+    let rb := if b.var == 0 then 0 else b.dv / b.var
+    .ok (t, dt, dof, dof * (8 * rmax ra rb + eps))
+
+/-- pooled: t = (x̄₁−x̄₂)/√(s_p²(1/n₁+1/n₂)), s_p² = ((n₁−1)s₁²+(n₂−1)s₂²)/(n₁+n₂−2), ν = n₁+n₂−2 -/
+def specPooled (a b : Moments) : Except String (Rat × Rat × Rat × Rat) :=
+  if a.n == 0 ∨ b.n == 0 then .error "size"
+  else if a.allEq ∧ b.allEq then .error "zerovar"
+  else if a.var ≤ a.dv ∧ b.var ≤ b.dv then .error "zerovar~"
+  else
+    let n1 : Rat := a.n; let n2 : Rat := b.n
+    let dof := n1 + n2 - 2
+    let sp2 := ((n1 - 1) * a.var + (n2 - 1) * b.var) / dof
+    let c := 1 / n1 + 1 / n2
+    let se := sqrtRat (sp2 * c)
+    let t := (a.mean - b.mean) / se
+    let dsp2 := ((n1 - 1) * a.dv + (n2 - 1) * b.dv) / dof
+    let dt := 2 * ((a.dm + b.dm) / se + rabs t * (dsp2 / sp2)) + rabs t * eps
+    .ok (t, dt, dof, 0)
+
+/-- one-sample: t = (x̄−μ₀)/(s/√n), ν = n−1 -/
+def specOne (a : Moments) (μ0 : Rat) : Except String (Rat × Rat × Rat × Rat) :=
+  if a.n == 0 then .error "size"
+  else if a.allEq then .error "zerovar"
+  else if a.var ≤ a.dv then .error "zerovar~"
+  else
+    let n : Rat := a.n
+    let se := sqrtRat a.var / sqrtRat n
+    let t := (a.mean - μ0) / se
+    let dt := 2 * (a.dm / se + rabs t * (a.dv / a.var)) + rabs t * eps
+    .ok (t, dt, n - 1, 0)
+
+def specPaired (x y : List F64.Bits) (μ0 : Rat) : Except String (Rat × Rat × Rat × Rat) :=
+  if x.length != y.length then .error "mismatch"
+  else if x.length ≤ 1 then .error "size"
+  else
+    -- the data of the paired test are the float64 differences the code forms
+    let d := (List.zipWith F64.sub x y).map toRat
+    specOne (moments d) μ0
+
+def pTail (go : String) (alt : Stats.TTest.Alt) : String :=
+  if go == "degen" ∨ go == "-" then "ok" else
+  match parseRes go with
+  | .error _ => "ok"
+  | .ok g =>
+    if !(F64.isFinite g.p && F64.isFinite g.fa && F64.isFinite g.ft) then "ok" else
+    let want : Rat := match alt with
+      | .differs => 2 * (1 - toRat g.fa)
+      | .less => toRat g.ft
+      | .greater => 1 - toRat g.ft
+    if rabs (toRat g.p - want) ≤ pow2 (-52) then "ok" else s!"bad(P={showB g.p},want~{showRat want})"
+
+open Stats.TTest in
+def ttest (l : Line) : IO Unit := do
+  let id := l.id
+  let f (k : String) : Rat := toRat (bitsD (l.getD k))
+  let alt := altOf (l.getD "alt")
+  let (n1, m1, v1, n2, m2, v2, mu) := (f "n1", f "m1", f "v1", f "n2", f "m2", f "v2", f "mu")
+  let gW := l.getD "W"; let gP := l.getD "P"; let gR := l.getD "R"; let gO := l.getD "O"
+  let i1 := n1.floor; let i2 := n2.floor
+  let kW := kEntry gW (welch sqrtRat n1 m1 v1 n2 m2 v2) i1 i2 alt
+  let kP := kEntry gP (pooled sqrtRat n1 m1 v1 n2 m2 v2) i1 i2 alt
+  let kO := kEntry gO (oneSample sqrtRat n1 m1 v1 mu) i1 0 alt
+  let xsS := l.getD "xs"; let ysS := l.getD "ys"
+  let xsB := bitsList xsS; let ysB := bitsList ysS
+  -- paired: differences, Mean and StdDev through the float64 instance (bit-exact), the final
+  -- formula in exact arithmetic
+  let kR :=
+    if gR == "-" then "-" else
+    if xsB.length != ysB.length then kEntry gR (.error .mismatched) 0 0 alt
+    else if xsB.length ≤ 1 then kEntry gR (.error .sampleSize) 0 0 alt
+    else
+      let diff : List Fl := List.zipWith (fun a b => (⟨F64.sub a b⟩ : Fl)) xsB ysB
+      match Descr.mean diff, Descr.variance diff with
+      | some md, some vd =>
+        let len := xsB.length
+        kEntry gR (pairedCore sqrtRat len (toRat md.bits) (sqrtRat (toRat vd.bits)) mu) len len alt
+      | _, _ => "bad(empty)"
+  IO.println s!"obs {id} welch={kW} pooled={kP} paired={kR} one={kO}"
+  let tails := allOk [pTail gW alt, pTail gP alt, pTail gR alt, pTail gO alt]
+  if gR == "-" then
+    IO.println s!"spec {id} ptail={tails}"
+  else
+    let a := moments (xsB.map toRat)
+    let b := moments (ysB.map toRat)
+    IO.println s!"spec {id} welch={sJudge gW (specWelch a b)} pooled={sJudge gP (specPooled a b)} paired={sJudge gR (specPaired xsB ysB mu)} one={sJudge gO (specOne a mu)} ptail={tails}"
+
+def tolSym : Rat := mkRat 1 (10 ^ 12)
+
+/-! ### continued fraction / incomplete beta -/
+
+def showCF (o : Option Fl) : String := match o with | some v => showFl v | none => "panic"
+
+def beta (l : Line) : IO Unit := do
+  let id := l.id
+  let x : Fl := ⟨bitsD (l.getD "x")⟩
+  let a : Fl := ⟨bitsD (l.getD "a")⟩
+  let b : Fl := ⟨bitsD (l.getD "b")⟩
+  let bt : Fl := ⟨bitsD (l.getD "bt")⟩
+  let x' : Fl := ⟨F64.sub F64.one x.bits⟩
+  let cf1 := Beta.betacf x a b
+  let cf2 := Beta.betacf x' b a
+  let I := match Beta.betaInc (fun _ _ _ => bt) Beta.betacf x a b with
+    | .val v => showFl v | .nan => "nan" | .panic => "panic"
+  IO.println s!"obs {id} cf1={showCF cf1} cf2={showCF cf2} I={I}"
+  if l.getD "q" == "1" then
+    -- exact instance of the same Lentz loop against Go's float64 result
+    let xq := toRat x.bits; let aq := toRat a.bits; let bq := toRat b.bits
+    let j (go : String) (m : Option Rat) : String :=
+      match m with
+      | none => if go == "panic" then "ok" else s!"bad(go={go},model=panic)"
+      | some v => if go == "panic" then "bad(go=panic)" else
+        if relClose (bitsD go) v (mkRat 1 (10 ^ 12)) then "ok" else s!"bad(go={go},model~{showRat v})"
+    -- only the fraction mathBetaInc actually uses (the other one converges slowly and stops on noise)
+    let direct := xq < (aq + 1) / (aq + bq + 2)
+    let v := if xq ≤ 0 ∨ xq ≥ 1 then "ok"
+      else if direct then j (l.getD "cf1") (Beta.betacf xq aq bq)
+      else j (l.getD "cf2") (Beta.betacf (1 - xq) bq aq)
+    IO.println s!"obs {id} q cf={v}"
+  -- S: I_x(a,b) + I_{1-x}(b,a) = 1 within 1e-12; values in [0,1]
+  let gi := l.getD "I"; let gj := l.getD "J"
+  if gi == "panic" ∨ gj == "panic" then
+    IO.println s!"spec {id} sym=ok range=ok"   -- the crash line is the finding
+  else
+    let bi := bitsD gi; let bj := bitsD gj
+    let inRange := F64.le x.bits F64.one && F64.le 0 x.bits
+    let sym :=
+      if !inRange then (if F64.isNaN bi then "ok" else s!"bad(I={gi},want=nan)")
+      else if !(F64.isFinite bi && F64.isFinite bj) then s!"bad(I={gi},J={gj})"
+      else
+        -- the two prefactors sum lgamma(a+b), lgamma(a), lgamma(b) in different orders: the identity
+        -- can hold only to a few ulps of lgamma(a+b) ≤ (a+b)·log2(a+b+2)
+        let ab := toRat a.bits + toRat b.bits
+        let tol := tolSym + 2 * ulp (ab * ((ilog2 (ab + 2) : Int) + 1 : Rat))
+        if rabs (toRat bi + toRat bj - 1) ≤ tol then "ok" else s!"bad(I={gi},J={gj})"
+    let rng :=
+      if !inRange then "ok"
+      else if F64.isFinite bi ∧ 0 ≤ toRat bi ∧ toRat bi ≤ 1 then "ok" else s!"bad(I={gi})"
+    IO.println s!"spec {id} sym={sym} range={rng}"
+
+/-! ### distribution grids (numeric search layer) -/
+
+def tolQuad : Rat := mkRat 1 (10 ^ 9)
+def tolInv : Rat := mkRat 1 (10 ^ 8)
+
+def grid (l : Line) (sigma : Rat) : IO Unit := do
+  let id := l.id
+  let c := toRat (bitsD (l.getD "c"))
+  let xsB := bitsList (l.getD "xs")
+  let FB := bitsList (l.getD "F")
+  let QB := bitsList (l.getD "Q")
+  let PB := bitsList (l.getD "P")
+  let VB := bitsList (l.getD "V")
+  let xs := xsB.map toRat
+  let fin := FB.all F64.isFinite
+  if !fin then
+    IO.println s!"spec {id} range=bad(nonfinite) mono=ok sym=ok quad=ok inv=ok"
+  else
+  let F := FB.map toRat
+  let rng := match (xsB.zip F).find? (fun (_, f) => f < 0 ∨ f > 1) with
+    | some (x, f) => s!"bad(x={showB x},F~{showRat f})" | none => "ok"
+  let rec mono : List (F64.Bits × Rat) → String
+    | (_, f) :: (x2, f2) :: r => if f ≤ f2 then mono ((x2, f2) :: r) else s!"bad(at={showB x2})"
+    | _ => "ok"
+  let arr := (xs.zip F).toArray
+  let sym := Id.run do
+    let mut res := "ok"
+    for (x, f) in arr do
+      if x > c then
+        for (x2, f2) in arr do
+          if x2 < c ∧ x + x2 == 2 * c ∧ rabs (f + f2 - 1) > tolSym then
+            res := s!"bad(x~{showRat x},F+F'-1~{showRat (f + f2 - 1)})"
+    return res
+  let quad := match ((xsB.zip F).zip QB).find? (fun ((_, f), q) => !(F64.isFinite q && rabs (f - toRat q) ≤ tolQuad)) with
+    | some ((x, f), q) => s!"bad(x={showB x},F~{showRat f},Q={showB q})" | none => "ok"
+  let inv := Id.run do
+    let mut res := "ok"
+    for (((x, f), p), v) in ((xs.zip F).zip PB).zip VB do
+      if f > 0 ∧ f < 1 ∧ F64.isFinite p ∧ toRat p > 0 then
+        let cond := pow2 (-50) / toRat p
+        if cond ≤ mkRat 1 1000 * sigma then
+          let tol := tolInv * (rabs (x - c) + sigma) + cond
+          if !(F64.isFinite v && rabs (toRat v - x) ≤ tol) then
+            res := s!"bad(x~{showRat x},inv={showB v})"
+    return res
+  IO.println s!"spec {id} range={rng} mono={mono (xsB.zip F)} sym={sym} quad={quad} inv={inv}"
+
+/-! ### generic InvCDF on arithmetic-only distributions -/
+
+def showIRes : Dists.IRes Fl → String
+  | .val x => showFl x | .nan => "nan" | .negInf => "fff0000000000000" | .posInf => "7ff0000000000000"
+  | .panic => "panic" | .fuel => "fuel"
+
+def inv (l : Line) : IO Unit := do
+  let id := l.id
+  let f (k : String) : Fl := ⟨bitsD (l.getD k)⟩
+  let q (k : String) : Rat := toRat (bitsD (l.getD k))
+  let y := f "y"
+  let ptsB := bitsList (l.getD "pts")
+  let (cdf, bl, bh, cdfQ, finite) : (Fl → Fl) × Fl × Fl × (Rat → Rat) × Bool :=
+    match l.getD "dist" with
+    | "uni" => (Dists.uniCDF (f "a") (f "b"), f "a", f "b", Dists.uniCDF (q "a") (q "b"), true)
+    | "sig" =>
+      let s := f "s"
+      (Dists.sigCDF s, ⟨F64.mul (F64.ofInt (-4)) s.bits⟩, ⟨F64.mul (F64.ofInt 4) s.bits⟩, Dists.sigCDF (q "s"), false)
+    | _ =>
+      let pts : List Fl := ptsB.map Fl.mk
+      (Dists.stepCDF pts, pts.headD ⟨0⟩, pts.getLastD ⟨0⟩, Dists.stepCDF (ptsB.map toRat), true)
+  let r := Dists.invCDF cdf bl bh 2400 y
+  IO.println s!"obs {id} x={showIRes r}"
+  -- S: judge the value the model agrees on (K ties it to Go) against the exact CDF:
+  -- F(x) ≥ y and F(x − δ) < y, i.e. x is within δ of the smallest point where F reaches y
+  let yq := toRat y.bits
+  let slack : Rat := mkRat 1 (10 ^ 15)
+  let verdict := match r with
+    | .nan => if yq < 0 ∨ yq > 1 then "ok" else "bad(nan)"
+    | .negInf => if yq == 0 ∧ !finite then "ok" else if !finite ∧ yq < mkRat 1 (10 ^ 100) then "ok" else "bad(-inf)"
+    | .posInf => if yq == 1 ∧ !finite then "ok" else if !finite ∧ yq > 1 - mkRat 1 (10 ^ 15) then "ok" else "bad(+inf)"
+    | .val x =>
+      let xq := toRat x.bits
+      if yq == 0 then (if finite ∧ xq == toRat bl.bits then "ok" else "bad(y=0)")
+      else if yq == 1 then (if finite ∧ xq == toRat bh.bits then "ok" else "bad(y=1)")
+      else
+        let δ := rmax (mkRat 2 (10 ^ 16)) (4 * ulp xq)
+        if cdfQ xq < yq - slack then s!"bad(F(x)<y)"
+        else if cdfQ (xq - δ) ≥ yq + slack then s!"bad(F(x-d)>=y)"
+        else "ok"
+    | .panic => "bad(panic)"
+    | .fuel => "bad(fuel)"
+  IO.println s!"spec {id} inverts={verdict}"
+
 def handle (l : Line) : IO Unit := do
   if l.kind != "case" then return
   match l.getD "kind" with
   | "descr" => descr l
+  | "ttest" => ttest l
+  | "beta" => beta l
+  | "tcdf" => grid l 1
+  | "ncdf" => grid l (toRat (bitsD (l.getD "sigma")))
+  | "inv" => inv l
+  | "sweep" => IO.println s!"spec {l.id} conv=ok"
   | _ => pure ()
 
 end Driver.C12
